@@ -74,6 +74,16 @@ fn main() {
         println!("libs ok={ok} rejected={bad} bytes={bytes} in {:?}; features {feats:?}", t0.elapsed());
         return;
     }
+    if id == "probe-enc" {
+        // check probe-enc <text|@file>: resolve without packages, encode, print as WAT
+        let text = rest.join(" ");
+        let text = if let Some(f) = text.strip_prefix('@') { std::fs::read_to_string(f).unwrap() } else { text };
+        let doc = wac_parser::Document::parse(&text).unwrap_or_else(|e| panic!("parse: {e:?}"));
+        let r = doc.resolve(Default::default()).unwrap_or_else(|e| panic!("resolve: {e:?}"));
+        let b = r.encode(wac_graph::EncodeOptions { define_components: true, validate: false, processor: None }).unwrap_or_else(|e| panic!("encode: {e:?}"));
+        println!("{}", wasmprinter::print_bytes(&b).unwrap());
+        return;
+    }
     if id == "probe-fe" {
         // check probe-fe <text|@file>: run the whole front end (parse, discover, resolve against the C14 fixtures' packages, encode)
         let text = rest.join(" ");
@@ -112,6 +122,7 @@ fn main() {
         "C01" => props::c01::run(tier, seed, replay.as_deref()),
         "C02" => props::c02::run(tier, seed, replay.as_deref()),
         "C03" => props::c03::run(tier, seed, replay.as_deref()),
+        "C05" => props::c05::run(tier, seed, replay.as_deref()),
         "C11" => props::c11::run(tier, seed, replay.as_deref()),
         "C10" => props::c10::run(tier, seed, replay.as_deref()),
         "C09" => props::c09::run(tier, seed, replay.as_deref()),
